@@ -183,11 +183,11 @@ SLOTS = [("pos-behind", "pos-bad", "audio", "bext", "cart", "cue", "inst", "chma
          ("pos-behind", "late", "late", "str", "inst", "cart", "misc")]                                 # before the close
 
 
-def gen_twin(rng, f, ch, mode):
+def gen_twin(rng, f, ch, mode, route="vio"):
     """-> (twin lines, {line index: Ins})"""
     ty = "s16" if f.codec not in (0x06, 0x07) else "f32"
     A, B = rng.choice([1, 5, 7, 25, 33]), rng.choice([1, 6, 25, 70])
-    L, marks = ["open h0 s0 %s fmt=%08x ch=%d sr=8000" % (mode, f.word, ch)], {}
+    L, marks = ["open h0 s0 %s fmt=%08x ch=%d sr=8000%s" % (mode, f.word, ch, "" if route == "vio" else " route=" + route)], {}
 
     def slot(late, k):
         cands = invalid_calls(rng, f, ch, mode, late, ty)
@@ -302,10 +302,17 @@ def run(ctx, quick=True):
         jobs.append((f, ch, "w"))
         if rng.random() < (0.3 if quick else 1.0):
             jobs.append((f, min(rng.choice([1, 2]), f.maxch), "rw"))
+        # the same on a real file (sf_open on a path): a seek the memory SF_VIRTUAL_IO refuses goes through there, SFC_FILE_TRUNCATE is a
+        # valid call -- always for the block codecs (pending partial blocks), for a quarter of the others
+        block = (not f.granular) or (f.major == 0x05 and f.codec == 0x03) or f.major == 0x11
+        if block or rng.random() < (0.25 if quick else 1.0):
+            jobs.append((f, min(rng.choice([1, 2]), f.maxch), "w@path"))
     built = []
     for i, (f, ch, mode) in enumerate(jobs):
-        L, marks = gen_twin(rng, f, ch, mode)
-        built.append(("%s-%s-%d" % (f.name, mode, i), f, ch, mode, L, marks))
+        route = "path" if mode.endswith("@path") else "vio"
+        mode = mode.split("@")[0]
+        L, marks = gen_twin(rng, f, ch, mode, route)
+        built.append(("%s-%s%s-%d" % (f.name, mode, "" if route == "vio" else "_" + route, i), f, ch, mode, L, marks))
     tw = ctx.batch([(n + "-twin", "\n".join(L) + "\n") for (n, f, ch, mode, L, marks) in built], workers=6)
     stage2, found, reported = [], False, set()
     marks_of = dict((n, marks) for (n, f, ch, mode, L, marks) in built)
